@@ -1,5 +1,6 @@
 import CashewsVerif.Lemmas.LruLeaves
 import CashewsVerif.Lemmas.SweepReach
+import CashewsVerif.Lemmas.LruX
 /-
 C11 — the in-memory backend respects its capacity and evicts least-recently-used first.
 Property theorems only; the ghost-instrumented model is `Model/Lru.lean`, helper lemmas are
@@ -190,7 +191,161 @@ theorem recent_readable (cap : Nat) (ops : List Op) (k : Key) :
   · exact absurd h hgone
   · exact absurd h.count (Nat.not_le.mpr hcount)
 
+/-! ### The larger alphabet: every command built from `_get` / `_set` / `_delete`
+
+`XOp` (Model/Lru.lean) adds to the regular commands `set_lock` (= `lock()`, `@locked`), `is_locked`, `unlock`,
+`set_add`, `set_remove`, `set_pop`, `slice_incr`, `incr_bits`, `get_bits`, `get_raw`, `get_match`,
+`delete_match`, each written out as a program (`Prog`) over the three primitives through which `Memory` touches
+its store.  Every theorem above is restated at full strength for histories over `XOp`, mixed in any order with the
+regular commands, time advances and purge sweeps, at every capacity; `any_program_*` say the same for programs
+that are not in the list at all. -/
+
+/-- **The ghost only observes**, larger alphabet. -/
+theorem x_ghost_is_erasable (cap : Nat) (ops : List XOp) :
+    ((Lru.init cap).xrun ops).1.mem = ((Mem.init cap).xrun ops).1 ∧
+    ((Lru.init cap).xrun ops).2 = ((Mem.init cap).xrun ops).2 :=
+  Lru.xrun_mem ops (Lru.init cap)
+
+/-- the histories of the first part are the `reg`-only histories of this one: nothing was re-defined -/
+theorem x_extends_regular (cap : Nat) (ops : List Op) :
+    (Mem.init cap).xrun (ops.map .reg) = (Mem.init cap).run ops := by
+  have h := Lru.xrun_mem (ops.map .reg) (Lru.init cap)
+  have h' := Lru.run_mem ops (Lru.init cap)
+  rw [Lru.xrun_reg] at h
+  exact Prod.ext (h.1.symm.trans h'.1) (h.2.symm.trans h'.2)
+
+/-- **(a) Capacity bound, larger alphabet.**  After every command of every history over `XOp` - so after every
+`set_lock`, `set_add`, `set_remove`, `set_pop`, `slice_incr`, `incr_bits` that creates an entry, on a full store
+or not - the store holds at most `cap` entries under pairwise distinct keys. -/
+theorem x_cap_bound (cap : Nat) (ops p : List XOp) (_hp : p <+: ops) :
+    ((Mem.init cap).xrun p).1.store.length ≤ cap ∧ (keys ((Mem.init cap).xrun p).1.store).Nodup := by
+  have h := Lru.inv_xrun cap p
+  have hc := Lru.cap_xrun cap p
+  rw [← (x_ghost_is_erasable cap p).1]
+  refine ⟨?_, h.ord.nodup⟩
+  have := h.bounded
+  unfold Lru.Bounded at this
+  rw [hc] at this
+  exact this
+
+/-- **(b) Store order = recency order, larger alphabet** (uses: every live `_get`, every `_set`, whichever
+command makes them). -/
+theorem x_order_is_recency (cap : Nat) (ops : List XOp) :
+    let x := ((Lru.init cap).xrun ops).1
+    (keys x.mem.store).Pairwise (fun a b => lastUse x.log a < lastUse x.log b) :=
+  (Lru.inv_xrun cap ops).ord
+
+/-- **(b) Victim rule, larger alphabet**: whichever command's `_set` evicts. -/
+theorem x_victim_rule (cap : Nat) (ops : List XOp) (k : Key) (log : List Key)
+    (hev : (k, log) ∈ ((Lru.init cap).xrun ops).1.evs) :
+    ∃ W : List Key, W.Nodup ∧ cap ≤ W.length ∧ ∀ w ∈ W, w ≠ k ∧ lastUse log k < lastUse log w := by
+  have h := (Lru.inv_xrun cap ops).evs (k, log) hev
+  rw [Lru.cap_xrun] at h
+  obtain ⟨W, h1, h2, h3⟩ := h
+  exact ⟨W, h1, h2, fun w hw => ⟨(h3 w hw).1, lastUse_lt_of_mem_usedSince (h3 w hw).2⟩⟩
+
+theorem x_victim_rule_count (cap : Nat) (ops : List XOp) (k : Key) (log : List Key)
+    (hev : (k, log) ∈ ((Lru.init cap).xrun ops).1.evs) :
+    cap ≤ (recentOthers log k).length ∧ k ∉ recentOthers log k := by
+  have h := (Lru.inv_xrun cap ops).evs (k, log) hev
+  rw [Lru.cap_xrun] at h
+  refine ⟨h.count, fun hk => ?_⟩
+  unfold recentOthers at hk
+  exact ne_of_mem_usedSince (List.mem_eraseDups.mp hk) rfl
+
+/-- **A key leaves the store only for a reason, larger alphabet**: deleted (`delete`, `unlock`, `delete_match`,
+the `del` inside `set_add` - which writes it again at once), cleared, collected after its deadline, or evicted by a
+recorded eviction that obeys the victim rule. -/
+theorem x_leaves_only_by (cap : Nat) (ops : List XOp) (op : XOp) (k : Key) :
+    let x := ((Lru.init cap).xrun ops).1
+    let x' := (x.xstep op).1
+    k ∈ keys x.mem.store → k ∉ keys x'.mem.store →
+    k ∈ x'.gone ∨
+    ∃ new log, x'.evs = new ++ x.evs ∧ (k, log) ∈ new ∧
+      ∃ W : List Key, W.Nodup ∧ cap ≤ W.length ∧ ∀ w ∈ W, w ≠ k ∧ lastUse log k < lastUse log w := by
+  intro x x' hin hout
+  have hl : Lru.Leaves x x' := (Lru.leaves_closed x).xstep x op (Lru.leaves_refl (Lru.disj_xrun cap ops))
+  obtain ⟨_, new, hev, hacc⟩ := hl
+  rcases hacc k hin with h | h | ⟨lg, hlg⟩
+  · exact absurd h hout
+  · exact Or.inl h
+  · refine Or.inr ⟨new, lg, hev, hlg, ?_⟩
+    have hx' : x' = ((Lru.init cap).xrun (ops ++ [op])).1 := (Lru.xrun_snoc ops op _).symm
+    apply x_victim_rule cap (ops ++ [op]) k lg
+    rw [← hx', hev]
+    exact List.mem_append_left _ hlg
+
+/-- **(d) Recently used ⇒ still held, larger alphabet.** -/
+theorem x_recent_readable (cap : Nat) (ops : List XOp) (k : Key) :
+    let x := ((Lru.init cap).xrun ops).1
+    k ∈ x.log → k ∉ x.gone → (recentOthers x.log k).length < cap →
+    ∃ e, lookup x.mem.store k = some e ∧
+      (e.live x.mem.now = true → (x.mem.rawGet k).2 = some e.val) := by
+  intro x hlog hgone hcount
+  have h := (Lru.inv_xrun cap ops).held k hlog
+  rw [Lru.cap_xrun] at h
+  rcases h with h | h | h
+  · have hs := (mem_keys_iff_lookup _ _).mp h
+    cases hl : lookup x.mem.store k with
+    | none => rw [hl] at hs; simp at hs
+    | some e =>
+      refine ⟨e, rfl, fun hlive => ?_⟩
+      unfold Mem.rawGet
+      simp [hl, hlive]
+  · exact absurd h hgone
+  · exact absurd h.count (Nat.not_le.mpr hcount)
+
+/-- **Any command that reaches the store only through `_get` / `_set` / `_delete` keeps the bound and the order** -
+not only the ones listed in `XOp`: from every reachable state, after running an arbitrary adaptive program over the
+three primitives, at most `cap` entries are held, under distinct keys, front to back in order of last use.  This is
+the sufficient condition the classification "creating write / touching use" rests on; what it excludes is a command
+that writes `self.store` directly (`set_raw`, or a `set_lock` that stores its token without `_set`). -/
+theorem any_program_keeps_bound_and_order (cap : Nat) (ops : List XOp) (p : Prog) :
+    let x := (((Lru.init cap).xrun ops).1.exec p).1
+    x.mem.store.length ≤ cap ∧ (keys x.mem.store).Nodup ∧
+    (keys x.mem.store).Pairwise (fun a b => lastUse x.log a < lastUse x.log b) := by
+  intro x
+  have h : Lru.Inv x := Lru.inv_closed.exec p _ (Lru.inv_xrun cap ops)
+  have hc : x.mem.cap = cap := (Lru.cap_closed cap).exec p _ (Lru.cap_xrun cap ops)
+  refine ⟨?_, h.ord.nodup, h.ord⟩
+  have := h.bounded
+  unfold Lru.Bounded at this
+  rw [hc] at this
+  exact this
+
+/-- the ghost of a program is erasable too: the statement above is about `Mem.exec` -/
+theorem any_program_ghost_is_erasable (x : Lru) (p : Prog) :
+    (x.exec p).1.mem = (x.mem.exec p).1 ∧ (x.exec p).2 = (x.mem.exec p).2 :=
+  Lru.exec_mem p x
+
 /-! ### Non-vacuity -/
+
+/-- capacity 2, the store is full (keys 0, 1); a lock is taken on key 2 (seeded change C11-12: the model writes it
+through `_set`, so key 0 is evicted and two entries are held), refused the second time (a use of key 2), probed,
+released with the wrong and with the right token; then a set key 3 and a rate-limit key 4 are created by
+`set_add` / `slice_incr`, each on a full store. -/
+def sampleXHist : List XOp :=
+  [.reg (.set 0 (.tok 0) none .always), .reg (.set 1 (.tok 1) none .always),
+   .setLock 2 (.tok 7) (some 80), .setLock 2 (.tok 8) (some 80), .isLocked 2, .unlock 2 (.tok 8), .unlock 2 (.tok 7),
+   .setAdd 3 (some 8), .sliceIncr 4 (some 8), .reg (.adv 8), .getMatch, .setAdd 3 none, .delMatch]
+
+example : ((Lru.init 2).xrun sampleXHist).2 =
+    [.bool true, .bool true, .bool true, .bool false, .bool true, .bool false, .bool true,
+     .unit, .unit, .unit, .unit, .unit, .unit] := by decide
+
+/-- the store after every command: never more than two entries; the lock evicts key 0, `set_add` on the full
+store evicts key 1 … -/
+example : (List.range 14).map (fun n => keys ((Mem.init 2).xrun (sampleXHist.take n)).1.store) =
+    [[], [0], [0, 1], [1, 2], [1, 2], [1, 2], [1, 2], [1], [1, 3], [3, 4], [3, 4], [3, 4], [4, 3], [4]] := by decide
+
+example : ((Lru.init 2).xrun sampleXHist).1.evs.map (·.1) = [1, 0] := by decide
+
+/-- what the bound excludes: the store after a write that bypasses `_set` (here `put` without `trim`, which is what
+`self.store[key] = ...` does) holds three entries at capacity 2 -/
+example : let s := ((Mem.init 2).xrun (sampleXHist.take 2)).1
+    (put s.store 2 ⟨.tok 7, some 80⟩).length = 3 ∧ (s.xstep (.setLock 2 (.tok 7) (some 80))).1.store.length = 2 := by
+  decide
+
 
 /-- capacity 2, keys 0..3.  `0` gets a TTL of 1 s and expires unpurged (it still occupies a slot and is
 still "more recently used" than nothing); a failed only-if-absent write refreshes `1`; the write of `3`
